@@ -41,6 +41,6 @@ PROP = dict(
         H(NS, "c16", "c16_wire_v4_uid36_mac20_time", "NTPv4 + unique id + 20 B MAC", tier="thorough"),
         H(NS, "c16", "c16_wire_v4_uid36x2_time", "NTPv4 + two unique ids (120 B)", tier="thorough"),
         H(NS, "c22", "c22_any_v3_53_55", "NTPv3 53/54/55 B", tier="thorough"),
-        H("np_srvnts_h", "c19", "c19_cookies_p2", "NTS time answers: a fresh cookie is only issued for a request field at least as long as the cookie (shared with C19; the NTS path through handle() is out of reach)", timeout=1800),
+        H("np_srvnts_h", "c19", "c19_cookies_p2", "NTS time answers: a fresh cookie is only issued for a request field at least as long as the cookie (shared with C19; the NTS path through handle() is out of reach)", timeout=1800, native_check="native::native_short_placeholders_get_no_cookie"),
 ],
 )
